@@ -33,17 +33,38 @@ TRUSTED = [
     "droplet._get_phase_field and scipy.ndimage.binary_dilation are used to recompute region and deviation (rendering is C03's subject)",
 ]
 ASSUME = [
-    "cost comparison: the two deviations are evaluated in binary64; relative slack 1e-9",
-    "a start ON a bound is moved inside by 1e-10 by scipy before the first evaluation; the cost premise is checked with slack 1e-6*(cost0+1) there and exactly otherwise",
+    "cost comparison: the two deviations are evaluated in binary64; relative slack 1e-9; the optimiser sees intensities in units of the "
+    "intensity range |vmax - vmin| (repair F34): recorded costs are compared with deviations divided by its square, fitted levels are "
+    "multiplied by it",
+    "a start ON a bound -- for scipy: closer to it than rstep = 1e-10*max(1,|bound|), e.g. a fitted intensity range below 1e-10 -- is moved inside by scipy before the first evaluation; the cost premise is checked with slack 1e-6*(cost0+1) there and exactly otherwise",
     "positions after (p - lo) % L + lo are compared with the exact-rational model to 1e-12 relative; all other entries exactly",
     "intensity entries of start vector / bounds (vmax - vmin, vmin - vrng, 3*vrng) are float results compared to 1e-12 relative",
+    "images of every data type (float32, int8 ... int64, uint8, bool): automatic levels are Python floats (repair F33), so the exact-"
+    "rational model expresses them; binary images are the rendered field thresholded at its mid-level; float32 images / levels supplied "
+    "as numpy.float32: the normalised data / levels keep single precision, the recomputed deviations are compared with the derived "
+    "rounding bound 2 sqrt(N dev) e + N e^2, e = 2 eps32 max|normalised value| (0 for float64 and integer images); numpy.float32 "
+    "levels with adjust_values go to the property oracle only (evidence key not_expressible_in_model)",
+    "identity: the Coq model has no heap; the caller's option dict and candidate object after the call are modelled as values "
+    "(caller_params_after, caller_candidate_after over the GENERATED flags params_copied / candidate_copied) and compared with what the "
+    "harness reads from the caller's objects afterwards; membership in an Emulsion / track is compared by the harness only (bytes of "
+    "every member before / after)",
 ]
 RULE = ("one evaluation = one refine_droplet call recorded end to end; main stream cycles grid families (Cartesian 1-3 d with random "
         "periodicity and mildly anisotropic spacing, polar, spherical, cylindrical incl. periodic_z; <= 16 cells per axis, 3-d <= 8), "
         "candidate classes (Spherical = promotion, Diffuse with / without width, Perturbed 2D / 3D / 3DAxisSym with 0, 2, 3 modes), "
         "image kinds (clean, noisy, affine, affine+noise) and the 2x2x2 options vmin/vmax given|None x adjust_values; candidates "
         "off by up to a cell, +-20 % radius/width, written across periodic boundaries, off the symmetry locus; every sixth case "
-        "is a fixed-point case (image rendered from the candidate, levels supplied); probe streams for the known-finding classes; "
+        "is a fixed-point case (image rendered from the candidate, levels supplied); amplitude vectors of length 0, 1, 2, 3, 4, 6; "
+        "dimension stream (notes/input_dimensions.md, one named recipe per case, own PRNG): grid geometry (entirely negative / centred / "
+        "positive boxes, spacing ratio 2-3 and cell counts 3:1 in both axis orders, narrow finely sliced and flat wide cylinders, dz >> dr "
+        "and dz << dr, 1-cell and 2-cell axes, inner radius > 0), active bounds (image whose optimum pushes the LAST amplitude beyond +-1 "
+        "for 1, 2, 3, 4, 6 amplitudes; radius -> 0; width -> 0; fitted vmin / vrng onto each of their four bounds), boundary candidates "
+        "(radius 0, width 0, exactly on periodic / non-periodic faces and corners, outside non-periodic faces, amplitude exactly +-1, all "
+        "zero, last only, on / off the symmetry locus), image (float32, int64, int16, uint8, int8, vmin > vmax, constant, copied / unpickled "
+        "field), options (tolerance None / 1e-3 / 1e-6 / 1e-10 / int 1 x least_squares_params None / {} / method / tolerances / max_nfev / "
+        "x_scale / jac / diff_step, the same dict reused from an earlier call), provenance of the candidate (copy, deepcopy, pickle, "
+        "from_data, copy(**kw), member of an Emulsion / copied / unpickled Emulsion / track), numeric types (tuple, ndarray, int, float32, "
+        "numpy scalar, 0-d array; levels int / numpy scalars / 0-d), the result object refined again; probe streams for the known-finding classes; "
         "non-trivial = the optimiser moved the start or an error value was produced; distinct by the full case")
 
 
@@ -127,6 +148,10 @@ def strip(case: dict) -> dict:
 def evaluate(ctx, tag: str, case: dict, state: dict):
     """run one case: record, oracle-spec, premise, property oracle, Coq literal"""
     rec = rc.run_refine(case)
+    if rec["error"] == "ParentFailed":      # the refinement that produces the candidate object failed: judged as its own case
+        ctx.case([tag, case], nontrivial=False)
+        ctx.count("outcome:" + tag, "ParentFailed")
+        return rec, []
     gs = case["grid"]
     call = rec["calls"][0] if rec["calls"] else None
     moved = call is not None and "x" in call and not np.array_equal(call["x"], call["x0"])
@@ -135,12 +160,12 @@ def evaluate(ctx, tag: str, case: dict, state: dict):
         ctx.count("family", rc.family_name(gs))
         ctx.count("periodic_axes", sum(1 for a in rc.grid_axes(gs) if a[3]))
         ctx.count("candidate_class", case["candidate"]["cls"])
-        ctx.count("modes", len(case["candidate"].get("amplitudes") or []))
         ctx.count("image", case["image"]["kind"])
         ctx.count("options", f"vmin={'given' if case['vmin'] is not None else 'None'},vmax="
                              f"{'given' if case['vmax'] is not None else 'None'},adjust={case['adjust']}")
         ctx.count("width", "none" if case["candidate"].get("width") is None else "given")
         ctx.count("fixed_point_case", bool(case.get("fixed_point")))
+    rc.count_dimensions(ctx, case, rec)
     ctx.count("outcome:" + tag, rec["error"] or "ok")
     state["fits"] += len(rec["calls"])
     # oracle spec of least_squares
@@ -150,7 +175,7 @@ def evaluate(ctx, tag: str, case: dict, state: dict):
     fails = rc.c04_oracle(case, rec)
     # premise: the deviation of the RETURNED (normalised) droplet is the cost the optimiser reported
     if rec["error"] is None and call is not None and "cost_at_x" in call and "dev1" in rec:
-        if not math.isclose(rec["dev1"], 2 * call["cost_at_x"], rel_tol=1e-9, abs_tol=1e-18):
+        if not math.isclose(rec["dev1"] / rec["scale"] ** 2, 2 * call["cost_at_x"], rel_tol=1e-9, abs_tol=1e-18 + rec.get("noise", 0.0)):
             if not any(f["class"] == "cost increased" for f in fails):
                 # on periodic cylinders the wrap changes the rendering (F19 -> known finding F22, failure class "cost increased")
                 ent = rc.match_known("C04", case, rec, "cost increased")
@@ -158,18 +183,23 @@ def evaluate(ctx, tag: str, case: dict, state: dict):
                     ctx.count("known_finding_hits", ent["id"] + " (premise)")
                 else:
                     state["premise"].append({"what": f"premise dev_normalisation_invariant: deviation of the returned droplet {rec['dev1']!r} "
+                                                     f"(in units of the squared intensity range: {rec['dev1'] / rec['scale'] ** 2!r}) "
                                                      f"differs from the optimiser's final cost {2 * call['cost_at_x']!r}", "input": strip(case)})
     lit = rc.case_lit(case, rec)
     if lit is not None:
         state["lits"].append(lit)
         state["lit_cases"].append((tag, case))
     else:
-        ctx.count("not_expressible_in_model", rec["error"] or "non-finite")
+        ctx.count("not_expressible_in_model", rc.not_in_model(case) or rec["error"] or "non-finite")
     for f in fails:
         ent = rc.match_known("C04", case, rec, f["class"])
+        sus = rc.match_suspected(case, rec, f["class"]) if ent is None else None
         if ent is not None:
             state["known"].setdefault(ent["id"], (ent, f, strip(case)))
             ctx.count("known_finding_hits", ent["id"])
+        elif sus is not None:
+            state["suspected"].setdefault(sus["id"], (sus, f, strip(case)))
+            ctx.count("suspected_not_judged", sus["id"])
         else:
             state["fails"].append({"what": f["what"], "failure": f["class"], "stream": tag, "input": strip(case)})
     if tag.startswith("F") and not fails:
@@ -181,8 +211,8 @@ def check(ctx: vlib.Ctx) -> int:
     import droplets
     ctx.extra["implementation"] = str(droplets.__file__)
     rng = random.Random(ctx.seed)
-    ok, fresh = rc.prove_with_fallback(ctx, ["Proofs/C04.vo"], ["Gen_refine", "Gen_refine_R"])
-    state = {"fits": 0, "spec": [], "premise": [], "lits": [], "lit_cases": [], "known": {}, "fails": []}
+    ok, fresh = rc.prove_with_fallback(ctx, ["Proofs/C04.vo", "Proofs/RefineOptions.vo"], ["Gen_refine", "Gen_refine_R"])
+    state = {"fits": 0, "spec": [], "premise": [], "lits": [], "lit_cases": [], "known": {}, "fails": [], "suspected": {}}
     n_main = ctx.scale(900, 6000) if not ctx.broken else ctx.scale(1500, 9000)
     for k in range(n_main):
         case = rc.gen_case(rng, k) if k % 6 else rc.gen_fixed_point_case(rng, k)
@@ -191,6 +221,15 @@ def check(ctx: vlib.Ctx) -> int:
             ctx.sample({"case": strip(case), "returned": rec["out"], "error": rec["error"],
                         "cost_start": rec["calls"][0].get("cost0") if rec["calls"] else None,
                         "cost_end": rec["calls"][0].get("cost") if rec["calls"] else None})
+    # the dimension stream (notes/input_dimensions.md): grid geometry, active bounds, boundary candidates, image data types,
+    # options, provenance, numeric types, repeated refinement -- its own PRNG so that the main stream is unchanged
+    rng_d = random.Random(ctx.seed + 2)
+    n_dim = ctx.scale(320, 2400) if not ctx.broken else ctx.scale(480, 3200)
+    for k in range(n_dim):
+        case = rc.gen_dim_case(rng_d, k)
+        rec, fails = evaluate(ctx, "dimensions", case, state)
+        if k in (9, 18):
+            ctx.sample({"case": strip(case), "returned": rec["out"], "error": rec["error"]})
     for tag, case in probe_cases(random.Random(ctx.seed + 1)):
         evaluate(ctx, tag, case, state)
     ctx.extra["fits"] = state["fits"]
@@ -217,6 +256,11 @@ def check(ctx: vlib.Ctx) -> int:
             ctx.violations.append({"what": s["what"], "input": s["input"], "found": True, "broken": ctx.broken[:3]})
     ctx.extra["oracle_failures_total"] = len(state["fails"])
     ctx.extra["failure_classes"] = seen
+    for sid in sorted(state["suspected"]):
+        sus, f, case = state["suspected"][sid]
+        ctx.notes.append(f"SUSPECTED {sid} (reported, not judged; {ctx.hist.get('suspected_not_judged', {}).get(sid, 0)} input(s) in this run): "
+                         f"{sus['what']} -- e.g. {f['what'][:200]} on input {json.dumps(case)[:600]}")
+    ctx.extra["suspected"] = [{"id": e["id"], "failure": e["failure"], "condition": e["condition"]} for e in rc.SUSPECTED]
     for fid in sorted(state["known"]):
         ent, f, case = state["known"][fid]
         ctx.known_printed.append(f"{fid}: {ent['what'][:160]} -- e.g. {f['what'][:160]} on input {json.dumps(case)[:700]}")
@@ -234,10 +278,12 @@ def replay(path: str) -> int:
         print("returned:", rec["out"], " error:", rec.get("error_message"))
         for f in fails:
             ent = rc.match_known("C04", case, rec, f["class"])
-            print("  property failure:", f["class"], "--", f["what"][:300], "(known finding " + ent["id"] + ")" if ent else "")
+            sus = rc.match_suspected(case, rec, f["class"])
+            print("  property failure:", f["class"], "--", f["what"][:300], "(known finding " + ent["id"] + ")" if ent else
+                  "(suspected " + sus["id"] + ", not judged)" if sus else "")
         for s in spec:
             print("  oracle-spec failure:", s[:300])
-        bad = [f for f in fails if rc.match_known("C04", case, rec, f["class"]) is None]
+        bad = [f for f in fails if rc.match_known("C04", case, rec, f["class"]) is None and rc.match_suspected(case, rec, f["class"]) is None]
         print("property oracle on the current tree:", "fails" if (bad or spec) else "holds")
         return 1 if (bad or spec) else 0
     print("no stored input (an obligation or the correspondence stopped checking); see `no_longer_checks`")
